@@ -311,8 +311,10 @@ func c04Orchestration(w *World, r *Report) {
 			}
 			okCond := false
 			if bi := blockIf(idx.Block()); bi != nil {
-				if rel, ok := NormCond(Cond{V: bi.Cond, Pol: true}); ok && rel.L == ssa.Value(idx) && rel.Op == ">=" && isIntConst(rel.R, 0) {
-					okCond = true
+				if rel, ok := NormCond(Cond{V: bi.Cond, Pol: true}); ok {
+					if rel, ok = rel.Facing(func(x ssa.Value) bool { return x == ssa.Value(idx) }); ok && rel.Op == ">=" && isIntConst(rel.R, 0) {
+						okCond = true
+					}
 				}
 			}
 			ex := loopExits(idx.Block(), true)
